@@ -82,8 +82,10 @@ def main():
     for j in range(nfresh):
         i = N + j; r = rng.random()
         if r < 0.4: cases.append((i, 'bytes', 'aldor', mutate.random_bytes(rng), 'random-bytes', False))
-        elif r < 0.6:
+        elif r < 0.55:
             data, d, inv = mutate.stress(rng); cases.append((i, 'stress', 'aldor', data, d, inv))
+        elif r < 0.7:
+            data, d, inv = mutate.ifsoup_accounted(rng); cases.append((i, 'ifsoup', 'aldor', data, d, inv))
         else:
             t = rng.choice(TEMPLATES); m, d, inv = mutate.unbalance(t, rng)
             cases.append((i, 'unbal:template', 'aldor', m.encode(), d, True))
